@@ -161,6 +161,10 @@ func (b *bitstream) Next() error {
 	if !b.stack.empty() {
 		cur := b.stack.peek()
 		if b.pos == cur.end {
+			if cur.code == bitcodeStruct && b.state == bssBeforeValue {
+				// The struct ends right after a field name.
+				return &SyntaxError{"field name without a value", b.pos}
+			}
 			b.code = bitcodeEOF
 			return nil
 		}
@@ -181,6 +185,10 @@ func (b *bitstream) Next() error {
 
 	// Found the end of the file.
 	if c == -1 {
+		if !b.stack.empty() {
+			// The enclosing container declared more bytes than the input holds.
+			return &UnexpectedEOFError{b.pos}
+		}
 		b.code = bitcodeEOF
 		return nil
 	}
@@ -1098,7 +1106,7 @@ func (b *bitstream) skip(n uint64) error {
 	b.pos += uint64(actual)
 
 	if err == io.EOF {
-		return nil
+		return &UnexpectedEOFError{b.pos}
 	}
 	if err != nil {
 		return &IOError{err}
